@@ -271,6 +271,7 @@ package codegen
 // backing array with the fields the object itself was collected into, whose initial payload is still to be written:
 // it is built from a fresh one-element literal, never from a window onto `fields`
 //@   callsite NewFieldSet: requires argtext0 == "fields" || argtext0 == "[]graphql.CollectedField{field}"
+//@   replay deferMergeEquivalence.go.tmpl for NewFieldSet
 // C01 response-key order / C06 document order: the value of the i-th collected field is stored at position i
 //@   at `assign out.Values[i]` requires idx == idx1
 
@@ -291,6 +292,7 @@ package codegen
 // on the argument, through them); only an absent argument is answered with the zero value straight away. (Stated
 // as: a present argument reaches the point where the argument's path context is set up, which precedes both.)
 //@ family fieldarg [C02,C01]
+//@   replay argDirectiveExplicitNull.go.tmpl
 //@   ghost present = false
 //@   at! `assign ok` ghost present = rhs0
 //@   ensures !panicked && present ==> calls(WithPathContext) >= 1
